@@ -29,7 +29,7 @@ Record case := {
 }.
 
 Definition hexc_idx (e : hexc) : nat :=
-  match e with XUser n => 10 + n | XNotFound => 0 | XLocked => 1 | XNoConnection => 2 | XNested => 3 end%nat.
+  match e with XUser n => 10 + n | XNotFound => 0 | XLocked => 1 | XNoConnection => 2 | XNested => 3 | XDuplicate => 4 end%nat.
 Definition result_eqb (a b : result) : bool :=
   match a, b with
   | Return x, Return y => list_eqb Z.eqb x y
